@@ -93,4 +93,51 @@ theorem C04_walk_consistent (fs : FS) (d : Path) (td : Bool) (j : Json) (hj : j 
     · exact h
   · cases hj
 
+theorem names_of_isDir (fs : FS) (d : Path) (n : String) (hd : fs.isDir d = true) (h : fs.isDir (d ++ [n]) = true) :
+    n ∈ names fs d := by
+  have hl : View.listDir fs d = .ok (names fs d) := by simp [View.listDir, hd]
+  exact (C04_listDir_iff fs d _ hl n).mpr (by simp [View.exists_, h])
+
+/-- **`walk` misses nothing**: every directory below `d` that is reached through directories (within the depth bound of
+    the model) has its entry -/
+theorem walkAux_complete : ∀ (fuel : Nat) (fs : FS) (d : Path) (td : Bool) (rest : List String),
+    rest.length < fuel → (∀ k, k ≤ rest.length → fs.isDir (d ++ rest.take k) = true) →
+    walkEntryOf fs (d ++ rest) ∈ walkAux fuel fs d td := by
+  intro fuel
+  induction fuel with
+  | zero => intro fs d td rest h; omega
+  | succ n ih =>
+    intro fs d td rest hlen hdirs
+    simp only [walkAux]
+    have hmem : walkEntryOf fs (d ++ rest) = walkEntryOf fs d ∨ walkEntryOf fs (d ++ rest) ∈
+        ((names fs d).filter (fun m => !fs.isFile (d ++ [m]) && fs.isDir (d ++ [m]))).flatMap (fun m => walkAux n fs (d ++ [m]) td) := by
+      cases rest with
+      | nil => left; simp
+      | cons m r =>
+        right
+        have hd0 : fs.isDir d = true := by simpa using hdirs 0 (by simp)
+        have hd1 : fs.isDir (d ++ [m]) = true := by simpa using hdirs 1 (by simp)
+        apply List.mem_flatMap.mpr
+        refine ⟨m, ?_, ?_⟩
+        · apply List.mem_filter.mpr
+          refine ⟨names_of_isDir fs d m hd0 hd1, ?_⟩
+          have hnf : fs.isFile (d ++ [m]) = false := by
+            cases hf : fs.isFile (d ++ [m]) with
+            | false => rfl
+            | true => exact absurd ⟨hf, hd1⟩ (C04_not_both fs _)
+          simp [hnf, hd1]
+        · have := ih fs (d ++ [m]) td r (by simp at hlen; omega) (fun k hk => by
+            have := hdirs (k + 1) (by simp; omega)
+            simpa [List.take_succ_cons, List.append_assoc] using this)
+          simpa [List.append_assoc] using this
+    cases td with
+    | true =>
+      simp only [if_true, List.mem_cons]
+      exact hmem
+    | false =>
+      simp only [Bool.false_eq_true, if_false, List.mem_append, List.mem_singleton]
+      rcases hmem with h | h
+      · exact Or.inr h
+      · exact Or.inl h
+
 end FB
